@@ -16,19 +16,19 @@ DONE = {
  "C04": ("property-based invariant testing: orientation of every stored normal, wall normals, centroid on the bisector, closure and divergence identities per cell (proptest, sharded)",
          "Exploration: generated inputs x masks up to n = 400/1500, all dimensionalities; identities hold for every constructed cell of every generated tessellation.",
          "Trusted: tolerance from the library's own conditioning; negligible faces (area <= 1e-9 of the face scale) are left out of the sums with a bound on their contribution. Same exemptions as C03.", "5 C04"),
- "C06": ("property-based differential testing (periodic vs the library's non-periodic mode on the 3^d-fold replicated input) + metamorphic translation + structural shift checks (proptest, sharded); thorough tier adds a coverage-guided libFuzzer campaign (cargo-fuzz target fz_c06, 16 jobs x 100 000 executions) on the same oracle",
+ "C06": ("property-based differential testing (periodic vs the library's non-periodic mode on the 3^d-fold replicated input) + metamorphic translation + structural shift checks (proptest, sharded); thorough tier adds a coverage-guided libFuzzer campaign (cargo-fuzz target fz_c06, 16 jobs x 40 000 executions) on the same oracle",
          "Exploration: periodic inputs n = 1..24 (n = 1, 2 emphasised) in all dimensionalities and box shapes, random and seam-aligned translations.",
          "Trusted: the non-periodic mode as reference (its own correctness is C01); tolerance from the library's own conditioning.", "5 C06"),
- "C07": ("property-based differential testing (partial vs full build) + exhaustive enumeration of all 2^n masks for small inputs; thorough tier adds a coverage-guided libFuzzer campaign (cargo-fuzz target fz_c07, 16 jobs x 80 000 executions) on the same oracle",
+ "C07": ("property-based differential testing (partial vs full build) + exhaustive enumeration of all 2^n masks for small inputs; thorough tier adds a coverage-guided libFuzzer campaign (cargo-fuzz target fz_c07, 16 jobs x 30 000 executions) on the same oracle",
          "Exploration with an exhaustively enumerated sub-space: random (input, mask) pairs up to n = 200/400 and ALL 2^n masks of small inputs (n <= 6 quick, <= 10 thorough); oracle = the full build of the same input (bitwise for cell values, set equality for faces, bookkeeping rules for selected/unselected faces).",
          "Trusted: the full build as the reference for the partial one (its own correctness is C01).", "5 C07"),
- "C12": ("property-based model checking of the index structure against a model rebuilt from faces() (proptest, sharded); thorough tier adds a coverage-guided libFuzzer campaign (cargo-fuzz target fz_c12, 16 jobs x 400 000 executions) on the same oracle",
+ "C12": ("property-based model checking of the index structure against a model rebuilt from faces() (proptest, sharded); thorough tier adds a coverage-guided libFuzzer campaign (cargo-fuzz target fz_c12, 16 jobs x 100 000 executions) on the same oracle",
          "Exploration: generated inputs x masks x both construction routes up to n = 600/2000; oracle = the expected connectivity rebuilt from the face list alone (prefix sums, exact membership, duplicate freedom, neighbour iterator incl. unconstructed cells).",
          "Trusted: faces() left/right/shift as ground truth for the model (their correctness is C01/C03).", "5 C12"),
- "C13": ("property-based differential testing, bitwise (proptest, sharded); thorough tier adds a coverage-guided libFuzzer campaign (cargo-fuzz target fz_c13, 16 jobs x 400 000 executions) on the same oracle",
+ "C13": ("property-based differential testing, bitwise (proptest, sharded); thorough tier adds a coverage-guided libFuzzer campaign (cargo-fuzz target fz_c13, 16 jobs x 60 000 executions) on the same oracle",
          "Exploration: generated inputs x masks, both routes and all built-in integrals compared bit for bit (canonical dump), ordered-list relation between symmetric and non-symmetric face integrals, with/without stored faces up to rounding.",
          "Trusted: nothing beyond the harness; the with-faces comparison is restricted to well-conditioned cells.", "5 C13"),
- "C08": ("property-based metamorphic testing (garbage in unused coordinates, bitwise) + closed-form 1D model + differential 2D vs 3D slab (proptest, sharded); thorough tier adds a coverage-guided libFuzzer campaign (cargo-fuzz target fz_c08, 16 jobs x 400 000 executions) on the same oracle",
+ "C08": ("property-based metamorphic testing (garbage in unused coordinates, bitwise) + closed-form 1D model + differential 2D vs 3D slab (proptest, sharded); thorough tier adds a coverage-guided libFuzzer campaign (cargo-fuzz target fz_c08, 16 jobs x 100 000 executions) on the same oracle",
          "Exploration: 1D/2D inputs from all families x masks with finite garbage in every unused component (incl. +-1e300, subnormals, f64::MAX); bitwise metamorphic relation, 1D closed form, 2D vs unit-thickness 3D slab, unit in-subspace normals.",
          "Trusted: the 3D mode as the reference for 2D (its own correctness is C01); tolerance from the library's own conditioning.", "5 C08"),
  "C10": ("exhaustive enumeration on small integer grids + property-based testing (random / adversarial co-spherical tuples) against an independent big-integer determinant; monotonicity and range of the grid map over generated boxes/positions",
@@ -40,7 +40,7 @@ DONE = {
  "C17": ("property-based model testing: the drained candidate iterator (hook nn_sequence) against the model 'sort all images by distance' (proptest, sharded)",
          "Exploration: point sets of 1..2500 (quick) / 10^4 (thorough) generators (uniform, clustered, lattices with many equidistant candidates, boundary, ...), all dimensionalities and box shapes, periodic or not, 4-6 query generators per set incl. first/last/closest to the seam; completeness as exact multiset equality, order up to rounding of the heap keys, shift encoding bitwise.",
          "Trusted: the hook returns the very iterators ConvexCell::build consumes (thin wrapper, see verif_hooks.rs); order tolerance 8 u L on positions.", "5 C17"),
- "C16": ("property-based testing: bound against the brute-force reference cell + history/metamorphic relation (append generators outside the safety ball in batches, rebuild, compare the cell) (proptest, sharded); thorough tier adds a coverage-guided libFuzzer campaign (cargo-fuzz target fz_c16, 16 jobs x 50 000 executions) on the same oracle",
+ "C16": ("property-based testing: bound against the brute-force reference cell + history/metamorphic relation (append generators outside the safety ball in batches, rebuild, compare the cell) (proptest, sharded); thorough tier adds a coverage-guided libFuzzer campaign (cargo-fuzz target fz_c16, 16 jobs x 20 000 executions) on the same oracle",
          "Exploration: thousands of generated inputs (n to 120 quick / 300 thorough, all dimensionalities, periodic or not, anisotropic boxes); per input the vertex bound for every cell, the brute-force bound for up to 4 cells, and one history of 1..20 additions in 1..3 batches placed by construction just outside (1.0..1.5 radii) or anywhere outside the safety ball.",
          "Trusted: the harness' reference model (C01), the conditioning-derived tolerance for 'unchanged up to rounding'. Over-estimates of the radius are legal and never flagged.", "5 C16"),
  "C18": ("property-based testing over histories with exhaustive enumeration of storage orders: all r! orders of the removed vertices for r <= 7 (sampled above), all permutations of small vertex arrays, random rotations of every plane triple, replayed clip histories (proptest, sharded; hook cell_clip = ConvexCell::clip_by_plane)",
@@ -61,7 +61,7 @@ DONE = {
  "C11": ("property-based differential testing across four builds of the same binary (big-integer backends ibig, dashu, malachite, num_bigint as separate processes), bitwise, plus exhaustive small-grid tuples and an independent determinant",
          "Exploration with an exhaustively enumerated sub-space: 1500 (quick) / 60 000 (thorough) degenerate-weighted inputs (exact path taken in about half of them) each with 8 integer 5-tuples; all 8^5 (quick) / 27^5 (thorough) 5-tuples of a small grid at two offsets; tessellation dumps, exact-call counters and predicate signs compared across all four backends and with the harness' determinant.",
          "Trusted: the harness' Bareiss determinant (C10). rug cannot be built offline and is not compared.", "5 C11"),
- "C15": ("property-based testing with validity predicates in both directions on every with_faces() cell + stateful generation (operation sequences over with_faces / discard_faces / clone / integrals / accessors with a one-bit model) + rejection of 1D/2D; release and debug-assertion builds; thorough tier adds a coverage-guided libFuzzer campaign (cargo-fuzz target fz_c15, 16 jobs x 50 000 executions) on the same oracle",
+ "C15": ("property-based testing with validity predicates in both directions on every with_faces() cell + stateful generation (operation sequences over with_faces / discard_faces / clone / integrals / accessors with a one-bit model) + rejection of 1D/2D; release and debug-assertion builds; thorough tier adds a coverage-guided libFuzzer campaign (cargo-fuzz target fz_c15, 16 jobs x 20 000 executions) on the same oracle",
          "Exploration: 3000 (quick) / 120 000 (thorough) generated inputs per build profile (90% 3D from all families x masks, 10% 1D/2D), about 60 000 cells / 550 000 polygons / 10^6 vertices per quick run; geometric predicates on well-conditioned cells, combinatorial ones (incidence, edge sharing, Euler, ordering, accessor agreement, round trip) on all. Thorough tier additionally replays the small cases of corpus/C15-miri/ through the same oracle under Miri (undefined-behaviour detection for the transmute / unwrap_unchecked paths).",
          "Trusted: nothing beyond the harness. The type-state invariant behind the unchecked accessors is exercised on every public transition sequence but cannot be shown for code paths that do not exist yet (DESIGN.md section 6).", "5 C15, 6"),
 }
